@@ -402,6 +402,34 @@ class ShelfCreator:
             metadata[b"message"] = message.encode("utf-8")
         return serializer.bytes_record(bencode.bencode(metadata), ((b"metadata",),))
 
+    def _check_shelf_transform(self):
+        """Refuse a selection that does not stand on its own.
+
+        If the selected changes depend on changes that were not selected (a
+        file added in a directory whose addition stays in the tree, one half
+        of a name swap, ...) the tree to be stored is not a tree: the shelf
+        could not be read back, or would not restore the working tree.  Raise
+        before anything is removed from the working tree.
+        """
+        conflicts = self.shelf_transform.find_raw_conflicts()
+        if not conflicts:
+            return
+        # The target tree has no root when nothing was committed yet, and the
+        # addition of the root is never shelved: write_shelf supplies it.
+        root_trans_id = self.shelf_transform.trans_id_file_id(
+            self.work_tree.path2id("")
+        )
+        conflicts = [
+            conflict
+            for conflict in conflicts
+            if not (
+                conflict[0] in ("missing parent", "unversioned parent")
+                and conflict[1] == root_trans_id
+            )
+        ]
+        if conflicts:
+            raise transform.MalformedTransform(conflicts=conflicts)
+
     def write_shelf(self, shelf_file, message=None):
         """Serialize the shelved changes to a file.
 
@@ -409,6 +437,7 @@ class ShelfCreator:
         :param message: An optional message describing the shelved changes.
         :return: the filename of the written file.
         """
+        self._check_shelf_transform()
         transform.resolve_conflicts(self.shelf_transform)
         revision_id = self.target_tree.get_revision_id()
         return self._write_shelf(shelf_file, self.shelf_transform, revision_id, message)
@@ -569,10 +598,16 @@ class ShelfManager:
         """Store the changes in a ShelfCreator on a shelf."""
         next_shelf, shelf_file = self.new_shelf()
         try:
-            creator.write_shelf(shelf_file, message)
-        finally:
-            shelf_file.close()
-        creator.transform()
+            try:
+                creator.write_shelf(shelf_file, message)
+            finally:
+                shelf_file.close()
+            creator.transform()
+        except transform.MalformedTransform:
+            # Raised before anything is applied: nothing was shelved, so do
+            # not leave a shelf behind.
+            self.delete_shelf(next_shelf)
+            raise
         return next_shelf
 
     def read_shelf(self, shelf_id):
